@@ -5,6 +5,9 @@ Period limit   : period_refines_spec, period_exact_quota, period_grants_exactly_
                  store_error_never_grants, reply_code_table
 Token limit    : ttl_covers_burst, token_refines_bucket, token_rate_bound, joint_meter_sound
 Rescue limiter : rescue_local_bound, rescue_rate_exact
+Leaving rescue : rescue_mode_has_monitor, monitor_no_lost_wakeup, monitor_at_most_one, rescue_quiescent_has_monitor,
+                 seeded_order_loses_wakeup (witness for the order `redisAlive=0` before the `monitorStarted` check)
+Arguments      : align_window, quota_zero_never_grants, window_zero_never_limits
 Defects (witnesses about the faithful model of the pinned code):
                  pinned_ttl_zero_script_fails, pinned_never_uses_store, pinned_ttl_zero_overgrants,
                  rescue_exceeds_nominal_rate
@@ -12,6 +15,7 @@ Defects (witnesses about the faithful model of the pinned code):
 import GoZero.C03.ProofsPeriodSpec
 import GoZero.C03.ProofsTokenBound
 import GoZero.C03.ProofsRescueSys
+import GoZero.C03.ProofsMonitor
 namespace GoZero.C03.Props
 open GoZero.C03 Spec
 
@@ -207,6 +211,190 @@ theorem rescue_rate_exact (rate : Nat) (hr : 0 < rate) (hle : rate ≤ 100000000
 
 example : (⟨5, 2, "a", "b"⟩ : TCfg).ival = 200000000 ∧ (⟨7, 2, "a", "b"⟩ : TCfg).ival = 142857142 := by decide
 
+/-! ## Rescue mode is always left again: the monitor goroutine -/
+
+/-- **No lost wake-up (system level).** For every operation sequence — requests, outages, recoveries, successful
+pings, monitor exits and late failures (`lateFail`: the error path of a request that was in flight reaches
+`startMonitor` at any later moment, in particular between the monitor's `redisAlive=1` and its deferred
+`monitorStarted=false`) — an instance that is in rescue mode has a monitor: `redisAlive = 0 → monitorStarted`.
+So whenever the store is reachable the event `pingOk i` is enabled and brings the instance back to the ONE bucket. -/
+theorem rescue_mode_has_monitor (fixed : Bool) (c : TCfg) (ops : List TOp) (i : Nat) :
+    ((Sys.exec fixed c (Sys.init c) ops).insts i).alive = false →
+    ((Sys.exec fixed c (Sys.init c) ops).insts i).monitor = true := by
+  have key : ∀ (ops : List TOp) (s : Sys), (∀ j, (s.insts j).alive = false → (s.insts j).monitor = true) →
+      ∀ j, ((Sys.exec fixed c s ops).insts j).alive = false → ((Sys.exec fixed c s ops).insts j).monitor = true := by
+    intro ops
+    induction ops with
+    | nil => intro s h; exact h
+    | cons op ops ih =>
+      intro s h
+      apply ih
+      have hsm : ∀ (x : Inst), (x.alive = false → x.monitor = true) →
+          (x.startMonitor.alive = false → x.startMonitor.monitor = true) := by
+        intro x hx; unfold Inst.startMonitor; split <;> simp_all
+      have hrp : ∀ (s : Sys) (k : Nat) (x : Inst) (ns n : Nat), (∀ j, (s.insts j).alive = false → (s.insts j).monitor = true) →
+          (x.alive = false → x.monitor = true) →
+          ∀ j, (((s.rescuePath c k x ns n).1.insts j).alive = false → ((s.rescuePath c k x ns n).1.insts j).monitor = true) := by
+        intro s k x ns n hs hx j
+        unfold Sys.rescuePath
+        by_cases hjk : j = k
+        · subst hjk; simpa [upd] using hx
+        · simpa [upd, hjk] using hs j
+      cases op with
+      | ft ms => exact h
+      | down => exact h
+      | up => exact h
+      | cancelledAlive k ns n => exact h
+      | allow k ns n =>
+        simp only [Sys.step, Sys.reserveN]
+        split
+        · exact hrp s k _ ns n h (h k)
+        · split
+          · exact hrp s k _ ns n h (hsm _ (h k))
+          · split
+            · exact hrp s k _ ns n h (hsm _ (h k))
+            · exact h
+      | pingOk k =>
+        simp only [Sys.step]
+        split
+        · intro j; by_cases hjk : j = k
+          · subst hjk; simp [upd]
+          · simpa [upd, hjk] using h j
+        · exact h
+      | monExit k =>
+        simp only [Sys.step]
+        split
+        next hg =>
+          intro j; by_cases hjk : j = k
+          · subst hjk; simp [upd, hg.2]
+          · simpa [upd, hjk] using h j
+        · exact h
+      | lateFail k =>
+        simp only [Sys.step]
+        intro j; by_cases hjk : j = k
+        · subst hjk; simpa [upd] using hsm _ (h j)
+        · simpa [upd, hjk] using h j
+  exact key ops (Sys.init c) (by intro j hj; simp [Sys.init, Inst.init] at hj) i
+
+example : ((Sys.exec true exCfg (Sys.init exCfg)
+      [.down, .allow 0 1700000001000000000 1, .up, .pingOk 0, .down, .allow 0 1700000001000000000 1, .lateFail 0]).insts 0).alive = true ∧
+    ((Sys.exec true exCfg (Sys.init exCfg) [.down, .allow 0 1700000001000000000 1, .up]).insts 0).alive = false := by decide
+
+/-- **No lost wake-up (statement level).** `startMonitor` executed row by row by any number of goroutines, interleaved
+in every possible way with the monitor goroutines' steps (ping ok + `redisAlive=1`, deferred Lock, `monitorStarted=false`,
+Unlock): whenever `redisAlive = 0`, a monitor goroutine is in its ping loop, or the goroutine holding `rescueLock`
+is at `go lim.waitForRedis()` (its next step, which nothing can block, starts one). -/
+theorem monitor_no_lost_wakeup (s : Mon.St) (h : Mon.Reach false s) (ha : s.alive = false) :
+    1 ≤ s.nLoop ∨ ∃ t, s.lock = .caller t ∧ s.pc t = .spawn :=
+  (Mon.inv_reach s h).wake ha
+
+/-- there is never more than one monitor goroutine per limiter, and `monitorStarted` says exactly whether there is one
+(in its loop, waiting for the lock in its deferred func, holding it before the clear — or promised by the goroutine
+that has set the flag and is about to spawn it) -/
+theorem monitor_at_most_one (s : Mon.St) (h : Mon.Reach false s) :
+    s.nLoop + s.nWant + (if s.lock = .monClear then 1 else 0) + Mon.pending s = Mon.b2n s.started ∧
+    s.nLoop + s.nWant ≤ 1 := by
+  have hc := (Mon.inv_reach s h).count
+  refine ⟨hc, ?_⟩
+  have hb : Mon.b2n s.started ≤ 1 := by cases s.started <;> simp [Mon.b2n]
+  generalize Mon.pending s = p at hc
+  generalize (if s.lock = Mon.Holder.monClear then 1 else 0 : Nat) = q at hc
+  omega
+
+/-- what the harness reads while it holds `rescueLock` itself (nobody is inside `startMonitor` or the deferred func):
+`redisAlive = 0` implies `monitorStarted` and exactly one goroutine in the ping loop; the pair
+(`redisAlive = 0`, `monitorStarted = false`) — reported as STUCK — is unreachable for the code as it is. -/
+theorem rescue_quiescent_has_monitor (s : Mon.St) (h : Mon.Reach false s) (hl : s.lock = .free) (ha : s.alive = false) :
+    s.started = true ∧ s.nLoop = 1 ∧ s.nWant = 0 := by
+  have hi := Mon.inv_reach s h
+  have hw := hi.wake ha
+  have hc := hi.count
+  rcases hw with hw | ⟨t, hlt, _⟩
+  · simp only [Mon.pending, hl] at hc
+    have hq : (if Mon.Holder.free = Mon.Holder.monClear then 1 else 0 : Nat) = 0 := by simp
+    rw [hq] at hc
+    cases hs : s.started with
+    | false => simp only [hs, Mon.b2n] at hc; exfalso; simp at hc; omega
+    | true =>
+      simp only [hs, Mon.b2n] at hc
+      simp at hc
+      exact ⟨rfl, by omega, by omega⟩
+  · simp [hl] at hlt
+
+/-- the schedule of the seeded change C03-2 / of any "late failure in the window" -/
+def lateSchedule : List Mon.Ev :=
+  [.caller 0, .caller 0, .caller 0, .caller 0, .caller 0, .caller 0, .caller 0,   -- a failed request starts the monitor
+   .pingOk,                                                                       -- the store is back: redisAlive=1
+   .caller 1, .caller 1, .caller 1, .caller 1,                                    -- a late failure: monitorStarted is still set
+   .monLock, .monClear, .monUnlock]                                               -- the deferred cleanup
+
+/-- WITNESS for the order of the seeded change (`redisAlive=0` stored before Lock and before the `monitorStarted`
+check): the schedule above ends with `redisAlive = 0`, `monitorStarted = false`, no monitor goroutine and nobody
+inside `startMonitor` — the instance stays on its local limiter for ever.  With the order of the code as it is the
+same schedule ends with `redisAlive = 1`. -/
+theorem seeded_order_loses_wakeup :
+    ((Mon.run true Mon.init lateSchedule).map fun s =>
+        decide (s.alive = false ∧ s.started = false ∧ s.nLoop = 0 ∧ s.nWant = 0 ∧ s.lock = .free ∧ s.pc 0 = .idle ∧ s.pc 1 = .idle))
+      = some true ∧
+    ((Mon.run false Mon.init lateSchedule).map fun s =>
+        decide (s.alive = true ∧ s.started = false ∧ s.nLoop = 0 ∧ s.nWant = 0 ∧ s.lock = .free ∧ s.pc 0 = .idle ∧ s.pc 1 = .idle))
+      = some true := by decide
+
+/-! ## `Align()` and arguments nothing validates -/
+
+/-- **Aligned window.** With `Align()`, `period ≥ 1` and a non-negative local clock, the window handed to the script is
+`1 … period` seconds and ends exactly on a multiple of `period` of the local clock (midnight for a day). A life started
+by a take therefore lasts at most `period`: `period_exact_quota` / `period_life_ends` apply with this window. -/
+theorem align_window (period unix : Int) (hp : 1 ≤ period) (hu : 0 ≤ unix) :
+    ∃ w, calcExpireZ true period unix = some w ∧ 1 ≤ w ∧ w ≤ period ∧ (unix + w) % period = 0 := by
+  have hp0 : period ≠ 0 := by omega
+  refine ⟨period - Int.tmod unix period, by simp [calcExpireZ, hp0], ?_, ?_, ?_⟩
+  · have := Int.tmod_lt_of_pos unix (by omega : 0 < period); omega
+  · have := Int.tmod_nonneg period hu; omega
+  · rw [Int.tmod_eq_emod_of_nonneg hu]
+    have h1 := Int.emod_add_mul_ediv unix period
+    have : unix + (period - unix % period) = period * (unix / period + 1) := by
+      rw [Int.mul_add]; omega
+    rw [this]; exact Int.mul_emod_right _ _
+
+example : calcExpireZ true 86400 1790689016 = some 37384 ∧ calcExpireZ true 0 5 = none ∧
+    calcExpireZ true (-7) 1790689016 = some (-11) ∧ calcExpireZ false (-7) 0 = some (-7) := by decide
+
+/-- **`quota ≤ 0` never grants** (the script compares `current ≥ 1` with the limit): every take is `OverQuota`. -/
+theorem quota_zero_never_grants (window : Nat) (s : PSys) (k : String) (hu : s.up = true) :
+    (s.take 0 window k).2 = (Code.overQuota, PErr.nil) := by
+  have hne : (s.store.incrby k 1).2 ≠ 0 := by unfold Store.incrby; split <;> simp
+  simp [PSys.take, hu, periodScript, takeResult, hne]
+
+/-- **A window `≤ 0` never limits** (`EXPIRE key w` with `w ≤ 0` deletes the counter; `period ≤ 0`, or `Align()` with a
+negative period): every take finds no counter and is answered like the first of a life — `Allowed` for ever when
+`quota ≥ 2`. Nothing in `NewPeriodLimit` rejects such a period. -/
+theorem window_zero_never_limits (quota : Nat) (s : PSys) (k : String) (hu : s.up = true) (hf : s.store.get k = none) :
+    (s.take quota 0 k).2 = (codeOf quota 1, PErr.nil) ∧ (s.take quota 0 k).1.store.get k = none ∧
+    (s.take quota 0 k).1.up = true := by
+  have hinc : s.store.incrby k 1 = (s.store.put k ⟨1, none⟩, 1) := by simp [Store.incrby, hf]
+  have hget : (s.store.put k ⟨1, none⟩).get k = some ⟨1, none⟩ := by
+    simp [Store.get, Store.find, Store.put, lookupKey, Entry.live]
+  have hdel : ((s.store.put k ⟨1, none⟩).del k).get k = none := by
+    rw [get_eq, find_del]; simp
+  refine ⟨?_, ?_, ?_⟩
+  · simp only [PSys.take, hu, if_true, periodScript, hinc]
+    exact takeResult_code quota 1
+  · simp [PSys.take, hu, periodScript, hinc, Store.expire, hget, hdel]
+  · simp [PSys.take, hu]
+
+example : (PSys.run 3 0 PSys.init [.take "a", .take "a", .take "a", .take "a", .take "a"]).filterMap id
+    = List.replicate 5 (Code.allowed, PErr.nil) := by decide
+
+
+/-- what the script does with arguments nothing validates (observed identically on the real code):
+rate 3, burst 5, fresh keys: `n = -2` is granted and leaves 7 > burst tokens stored (capped again by the next call);
+rate −2, burst 3: the bucket holds 3 − 2·now tokens, nothing positive is ever granted. -/
+example : (tokenScriptZ 3 5 1700000000 (-2) ⟨none, none⟩) = (⟨some 7, some 1700000000⟩, true) ∧
+    (tokenScriptZ 3 5 1700000000 5 ⟨some 7, some 1700000000⟩) = (⟨some 0, some 1700000000⟩, true) ∧
+    (tokenScriptZ (-2) 3 1700000000 1 ⟨none, none⟩) = (⟨some (-3399999997), some 1700000000⟩, false) ∧
+    ttlZ (-2) 3 = 1 ∧ ttlZ 3 5 = 3 := by decide
+
 /-! ## Defects: witnesses on the faithful model of the pinned code -/
 
 /-- DEFECT (core/limit/tokenscript.lua at the pinned commit): whenever `2·burst < rate` the script computes
@@ -239,6 +427,8 @@ theorem pinned_never_uses_store (c : TCfg) (h : 2 * c.burst < c.rate) :
     | ft ms => simpa [Sys.run, Sys.step] using ih _
     | down => simpa [Sys.run, Sys.step] using ih _
     | up => simpa [Sys.run, Sys.step] using ih _
+    | lateFail i => simpa [Sys.run, Sys.step] using ih _
+    | cancelledAlive i ns n => simpa [Sys.run, Sys.step] using ih _
     | pingOk i =>
       obtain ⟨_, h2⟩ := step_insts_other false c s (.pingOk i) 0 (by intros; simp)
       have : Sys.run false c s (TOp.pingOk i :: ops) = Sys.run false c (s.step false c (.pingOk i)).1 ops := by
